@@ -589,6 +589,16 @@ def bilinear_patch(P, rep, rule="GRID.patch"):
     V = VecEval(P, F, env=env)
     body = astq.stmts_of(loops[1]["c"][3])
     stores = {}
+    # named constants hoisted out of the inner loop: declarations of the function body and of the outer loop body in front of it
+    for outer in (astq.stmts_of(F.body), astq.stmts_of(loops[0]["c"][3])):
+        for st in outer:
+            if st is loops[0] or st is loops[1] or any(z is loops[1] for z in F.walk(st)):
+                break
+            if st.get("k") == "DeclStmt" and all(d_.get("k") == "VarDecl" and norm.is_arith(d_.get("t", "")) and d_.get("c") for d_ in st["c"]):
+                try:
+                    V.stmt(st)
+                except AnalysisBroken:
+                    pass
     try:
         for st in body:
             if st.get("k") == "DeclStmt":
